@@ -386,6 +386,101 @@ def check_trie(chk, idx):
         lo_ok = isinstance(lo, ast.Name) and lo.id in alias
     chk.judge(lo_ok, 'C16.trie-yield', c.mod.path, 'TrieTree.find walk start', 'inner range starts at the start index',
               'TrieTree.find: the inner walk must start at the start index i', inner.lineno)
+    # the walk from i reaches the end of the query, or stops at a bound shown to cover every inserted phrase
+    q = [a.arg for a in fn.args.args if a.arg != 'self'][0]
+    ok_end, why = _walk_end(c, fn, outer, inner, i, q)
+    chk.judge(ok_end, 'C16.trie-yield', c.mod.path, 'TrieTree.find walk end', why if ok_end else 'walk may stop early',
+              'TrieTree.find: %s' % why, inner.lineno)
+    # every start index is tried
+    oi = outer.iter
+    all_starts = isinstance(oi, ast.Call) and isinstance(oi.func, ast.Name) and oi.func.id == 'range' and (
+        (len(oi.args) == 1 and ast.unparse(oi.args[0]) == 'len(%s)' % q) or
+        (len(oi.args) == 2 and ast.unparse(oi.args[0]) == '0' and ast.unparse(oi.args[1]) == 'len(%s)' % q))
+    chk.judge(all_starts, 'C16.trie-yield', c.mod.path, 'TrieTree.find start indices', 'range(0, len(query))',
+              'TrieTree.find: the outer loop must try every start index 0..len(query)-1; found %s' % ast.unparse(oi), outer.lineno)
+
+
+def _walk_end(c, fn, outer, inner, i, q):
+    """(ok, explanation) for the upper bound of the inner walk `range(lo, hi)`: j must be able to reach len(q) (a phrase ending
+    at the last token is yielded at j == len(q)), unless the walk is cut at i + self.<bound> and <bound> is maintained as the
+    maximum length of the inserted phrases"""
+    rng = inner.iter
+    if not (isinstance(rng, ast.Call) and isinstance(rng.func, ast.Name) and rng.func.id == 'range' and len(rng.args) == 2):
+        return False, 'the inner walk is not a two-argument range'
+    hi = rng.args[1]
+    full = {'len(%s) + 1' % q, '1 + len(%s)' % q}
+    if ast.unparse(hi) in full:
+        return True, 'walk runs to len(query) inclusive'
+    # hi = <name> + 1 with <name> = min(len(q), i + self.<attr>) assigned before the walk
+    if isinstance(hi, ast.BinOp) and isinstance(hi.op, ast.Add) and isinstance(hi.right, ast.Constant) and hi.right.value == 1:
+        cut = hi.left
+        if isinstance(cut, ast.Name):
+            for st in outer.body[:outer.body.index(inner)]:
+                if isinstance(st, ast.Assign) and len(st.targets) == 1 and isinstance(st.targets[0], ast.Name) \
+                        and st.targets[0].id == cut.id:
+                    cut = st.value
+        if isinstance(cut, ast.Call) and isinstance(cut.func, ast.Name) and cut.func.id == 'min' and len(cut.args) == 2:
+            args = [ast.unparse(a) for a in cut.args]
+            other = [a for a in cut.args if ast.unparse(a) != 'len(%s)' % q]
+            if 'len(%s)' % q in args and len(other) == 1:
+                o = other[0]
+                attr = None
+                if isinstance(o, ast.BinOp) and isinstance(o.op, ast.Add):
+                    for x, y in ((o.left, o.right), (o.right, o.left)):
+                        if isinstance(x, ast.Name) and x.id == i and isinstance(y, ast.Attribute) and isinstance(y.value, ast.Name) \
+                                and y.value.id == 'self':
+                            attr = y.attr
+                if attr:
+                    ok, why = _bound_is_max_len(c, attr)
+                    return ok, ('walk cut at i + self.%s: ' % attr) + why
+    return False, 'the inner walk stops at %s, which is not shown to reach the end of the query or the longest inserted phrase: ' \
+                  'a phrase that ends later is silently missed' % ast.unparse(hi)
+
+
+def _bound_is_max_len(c, attr):
+    """is self.<attr> written only as a constant in __init__ and as max(self.<attr>, L) in insert, with L = len(value) or a
+    counter that is incremented once per item of `value` unconditionally?"""
+    writes = []
+    for name, f in c.methods.items():
+        for n in ast.walk(f):
+            if isinstance(n, (ast.Assign, ast.AugAssign)):
+                tg = n.targets if isinstance(n, ast.Assign) else [n.target]
+                for t in tg:
+                    if isinstance(t, ast.Attribute) and isinstance(t.value, ast.Name) and t.value.id == 'self' and t.attr == attr:
+                        writes.append((name, f, n))
+    if not writes:
+        return False, 'no write of self.%s found' % attr
+    for name, f, n in writes:
+        if name == '__init__' and isinstance(n, ast.Assign) and isinstance(n.value, ast.Constant):
+            continue
+        if name != 'insert' or not isinstance(n, ast.Assign):
+            return False, 'self.%s is written in %s in a way the rule does not understand' % (attr, name)
+        v = n.value
+        if not (isinstance(v, ast.Call) and isinstance(v.func, ast.Name) and v.func.id == 'max' and len(v.args) == 2):
+            return False, 'self.%s is not maintained as a maximum' % attr
+        other = [a for a in v.args if not (isinstance(a, ast.Attribute) and a.attr == attr)]
+        if len(other) != 1:
+            return False, 'self.%s is not maintained as a maximum' % attr
+        L = other[0]
+        params = [a.arg for a in f.args.args if a.arg != 'self']
+        seq = params[0] if params else None
+        if ast.unparse(L) == 'len(%s)' % seq:
+            continue
+        if isinstance(L, ast.Name):
+            loops = [x for x in f.body if isinstance(x, ast.For) and ast.unparse(x.iter) == seq]
+            inits = [x for x in f.body if isinstance(x, ast.Assign) and len(x.targets) == 1 and isinstance(x.targets[0], ast.Name)
+                     and x.targets[0].id == L.id and isinstance(x.value, ast.Constant) and x.value.value == 0]
+            all_w = [x for x in ast.walk(f) if isinstance(x, (ast.Assign, ast.AugAssign)) and any(
+                isinstance(t, ast.Name) and t.id == L.id for t in (x.targets if isinstance(x, ast.Assign) else [x.target]))]
+            incs = [x for lp in loops for x in lp.body if isinstance(x, ast.AugAssign) and isinstance(x.target, ast.Name)
+                    and x.target.id == L.id and isinstance(x.op, ast.Add) and isinstance(x.value, ast.Constant) and x.value.value == 1]
+            if len(loops) == 1 and len(inits) == 1 and len(incs) == 1 and len(all_w) == 2:
+                continue
+            return False, ('the bound self.%s is raised to the counter `%s`, which is not incremented exactly once for every '
+                           'token of the inserted phrase (e.g. only when a new node is created): a phrase that extends an '
+                           'earlier one is longer than the bound and find() stops before reaching it' % (attr, L.id))
+        return False, 'self.%s is raised to %s, not to the phrase length' % (attr, ast.unparse(L))
+    return True, 'self.%s is the maximum inserted phrase length' % attr
 
 
 def _toplevel_call(stmts, pred):
@@ -517,7 +612,7 @@ def run(chk):
     chk.rule('C16.flush', 'scanner-loop flush accounting per branch x in_token', floor=14, control=True)
     chk.rule('C16.find-map', 'StringMatcher.find token-index to character-offset mapping', floor=3)
     chk.rule('C16.init-pairs', 'dict form of init pairs each value with its own key', floor=1)
-    chk.rule('C16.trie-yield', 'TrieTree.find yields (i, j - i) for the walk from i', floor=3)
+    chk.rule('C16.trie-yield', 'TrieTree.find yields (i, j - i) for the walk from i; every start is tried and every walk reaches the end of the query (or a proven phrase-length bound)', floor=5)
     chk.rule('C16.insert-all', 'every (phrase, id) pair reaches the trie: batch_insert, TrieTree.insert, Node.add_value', floor=3)
     for q in TOKENIZERS:
         check_tokenizer(chk, idx, q)
